@@ -100,6 +100,8 @@ def judge(path):
             want = [first("a"), first("b"), first("c"), -1, -1]
             if finds[:5] != want:
                 viol("find_bykid:%s" % OPS[op], "jwks_find_bykid results %r, model %r" % (finds[:5], want), ev)
+            if len(finds) > 6 and any(x != -1 for x in finds[6:]):
+                viol("find_bykid-inexact:%s" % OPS[op], "jwks_find_bykid found an item for a kid no item has (spellings of 'c+d/e': %r)" % (finds[6:],), ev)
             # the kid of the most recently loaded flagged item: a flagged item is still an item of the list (even ids: kid certainly parsed)
             if last_bad is not None and last_bad % 2 == 0:
                 want6 = last_bad if any(i["uid"] == last_bad for i in items) else -1
